@@ -546,11 +546,33 @@ struct Case<'a> {
     /// reference NSEC / NSEC3 chain of the reference zone for this signing mode (adequacy clause:
     /// guards the role table, never compared with hickory's chain)
     refp: &'a adequacy::RefProofs,
+    /// the adequacy plan for this (zone, mode, query name, type) and whether the reference chain
+    /// can deliver it, when the caller has already computed them (generation loop); None: compute
+    pre: Option<&'a Option<(adequacy::Plan, bool)>>,
 }
 
 impl Case<'_> {
     fn json(&self) -> Value {
         json!({"zone": self.z.to_json(), "zone_text": self.z.to_text(), "mode": self.sign.to_json(), "query": self.query.to_json(), "query_wire": hex(&self.query.wire(0x1010))})
+    }
+}
+
+/// what the adequacy clause looked at; turned into JSON only when a witness or sample needs it
+struct Denial {
+    plan: adequacy::Plan,
+    verdict: adequacy::Verdict,
+    recs: Vec<adequacy::Rec>,
+    unparsed: Vec<String>,
+}
+
+impl Denial {
+    fn json(&self, hc: &adequacy::HashCache) -> Value {
+        let mut dj = adequacy::table_json(&self.plan, &self.verdict, &self.recs, hc);
+        dj["records"] = json!(self.recs.iter().map(adequacy::show_rec).collect::<Vec<_>>());
+        if !self.unparsed.is_empty() {
+            dj["unparsed_records"] = json!(self.unparsed);
+        }
+        dj
     }
 }
 
@@ -561,7 +583,7 @@ struct Verdicts {
     /// evidence counters of the adequacy clause
     counts: Vec<String>,
     /// attached denial records and the role table (adequacy clause), for witnesses and samples
-    denial: Option<Value>,
+    denial: Option<Denial>,
     /// the oracle caught itself asking for the impossible: the run must not count as a verdict
     oracle_fault: Option<String>,
 }
@@ -887,16 +909,23 @@ fn check_adequacy(c: &Case, e: &Outcome, o: &Obs, want: u16, out: &mut Verdicts)
     let z = c.z;
     let mode = c.sign.tag();
     let nsec3 = want == ty::NSEC3;
-    let Some(plan) = adequacy::plan(z, e, nsec3, c.sign.opt_out(), c.refp) else { return };
-    let key = format!("{}|{}", plan.claim, mode);
     // the role table must be satisfiable on the reference chain of the reference zone; where it is
     // not (opt-out: a name to be matched exists only because of insecure delegations) nothing is judged
-    let on_ref = adequacy::evaluate(&plan, &c.refp.recs, &z.apex, &c.refp.hc);
-    if !on_ref.ok {
+    let (plan, provable) = match c.pre {
+        Some(None) => return,
+        Some(Some((p, ok))) => (p.clone(), *ok),
+        None => {
+            let Some(p) = adequacy::plan(z, e, nsec3, c.sign.opt_out(), c.refp) else { return };
+            let ok = adequacy::evaluate(&p, &c.refp.recs, &z.apex, &c.refp.hc).ok;
+            (p, ok)
+        }
+    };
+    let key = format!("{}|{}", plan.claim, mode);
+    if !provable {
         if c.sign.opt_out() {
             out.dontcare.push("dontcare/adequacy-not-provable-under-opt-out");
         } else {
-            out.oracle_fault = Some(format!("adequacy role table not satisfiable on the reference chain: {} missing {:?} for {} {}", key, on_ref.missing, refzone::show(&e.qname), refzone::type_name(e.qtype)));
+            out.oracle_fault = Some(format!("adequacy role table not satisfiable on the reference chain: {} for {} {}", key, refzone::show(&e.qname), refzone::type_name(e.qtype)));
         }
         return;
     }
@@ -931,26 +960,21 @@ fn check_adequacy(c: &Case, e: &Outcome, o: &Obs, want: u16, out: &mut Verdicts)
             Err(m) => out.counts.push(format!("adequacy/role_missing/{m}|{mode}")),
         }
     }
-    let mut dj = adequacy::table_json(&plan, &v, &recs, hc);
-    dj["records"] = json!(recs.iter().map(adequacy::show_rec).collect::<Vec<_>>());
-    if !unparsed.is_empty() {
-        dj["unparsed_records"] = json!(unparsed);
-    }
-    out.denial = Some(dj);
     if v.ok {
         out.counts.push(format!("adequacy/ok/{key}"));
         out.counts.push("adequacy/adequate".into());
         if v.alt.is_some_and(|a| a > 0) {
             out.counts.push("adequacy/ok_by_alternative_proof".into());
         }
-        return;
+    } else {
+        let roles: Vec<String> = plan.alts[0].iter().map(|r| format!("{}({})", r.role, refzone::show(&r.target))).collect();
+        out.fail(
+            "denial-inadequate",
+            format!("{}|{}|missing={}|{}", plan.claim, mode, v.missing.join(","), if c.sign.opt_out() { "optout" } else { "plain" }),
+            format!("the {} records in the authority section do not prove the {}: required {} - not satisfied: {}", refzone::type_name(want), plan.claim, roles.join(" + "), v.missing.join(", ")),
+        );
     }
-    let roles: Vec<String> = plan.alts[0].iter().map(|r| format!("{}({})", r.role, refzone::show(&r.target))).collect();
-    out.fail(
-        "denial-inadequate",
-        format!("{}|{}|missing={}|{}", plan.claim, mode, v.missing.join(","), if c.sign.opt_out() { "optout" } else { "plain" }),
-        format!("the {} records in the authority section do not prove the {}: required {} - not satisfied: {}", refzone::type_name(want), plan.claim, roles.join(" + "), v.missing.join(", ")),
-    );
+    out.denial = Some(Denial { plan, verdict: v, recs, unparsed });
 }
 
 // ---------------------------------------------------------------------------------------------
@@ -965,7 +989,7 @@ struct Evaluation {
     observed: Value,
     obs: Option<Obs>,
     counts: Vec<String>,
-    denial: Option<Value>,
+    denial: Option<Denial>,
     oracle_fault: Option<String>,
 }
 
@@ -1010,8 +1034,8 @@ fn evaluate(rt: &tokio::runtime::Runtime, cat: &Catalog, c: &Case, e: &Outcome) 
     ev.counts = verdicts.counts;
     ev.oracle_fault = verdicts.oracle_fault;
     ev.observed = json!({"kind": ev.okind, "response": obs_json(&obs), "hex": hex(msg)});
-    if let Some(d) = &verdicts.denial {
-        ev.observed["denial"] = d.clone();
+    if let (Some(d), false) = (&verdicts.denial, ev.v.is_empty()) {
+        ev.observed["denial"] = d.json(&c.refp.hc);
     }
     ev.denial = verdicts.denial;
     ev.obs = Some(obs);
@@ -1086,7 +1110,7 @@ impl Runner<'_> {
                     let has = e.glue.iter().any(|g| obs.sec[2].contains(g));
                     self.rep.count(if has { "info/referral_with_glue" } else { "info/referral_glue_omitted" });
                 }
-                self.rep.sample(|| json!({"mode": c.sign.tag(), "query": c.query.to_json(), "expected_kind": e.kind.as_str(), "observed": obs_json(obs), "zone_records": c.z.records().len()}));
+                self.rep.sample(|| json!({"mode": c.sign.tag(), "query": c.query.to_json(), "expected_kind": e.kind.as_str(), "observed": obs_json(obs), "denial": ev.denial.as_ref().map(|d| d.json(&c.refp.hc)), "zone_records": c.z.records().len()}));
             }
         }
         for (rule, sig, detail) in ev.v {
@@ -1116,7 +1140,7 @@ fn minimize(rt: &tokio::runtime::Runtime, z: &Zone, sign: &Sign, query: &Query, 
         let cat = build_catalog(z, sign).ok()?;
         let e = refzone::ref_auth(z, &query.qname, query.qtype);
         let refp = adequacy::RefProofs::build(z, &sign.ref_mode());
-        let ev = evaluate(rt, &cat, &Case { z, zhash: 0, sign, query, refp: &refp }, &e);
+        let ev = evaluate(rt, &cat, &Case { z, zhash: 0, sign, query, refp: &refp, pre: None }, &e);
         Some(ev.v.into_iter().map(|(r, s, _)| (r, s)).collect())
     };
     let good = |s: &Option<Vec<(String, String)>>, max: usize| s.as_ref().is_some_and(|v| v.contains(target) && v.len() <= max);
@@ -1215,7 +1239,7 @@ fn main() {
         let zhash = fnv64(&z.canonical_bytes());
         let mut r = Runner { rep: &mut rep, rt, reported: Default::default() };
         let refp = adequacy::RefProofs::build(&z, &sign.ref_mode());
-        r.run_query(&cat, &Case { z: &z, zhash, sign: &sign, query: &query, refp: &refp }, &e);
+        r.run_query(&cat, &Case { z: &z, zhash, sign: &sign, query: &query, refp: &refp, pre: None }, &e);
         rep.replay_finish();
     }
 
@@ -1229,8 +1253,7 @@ fn main() {
     rep.must("do1_denial_present", 1000);
     rep.must("mode/nsec", 10_000);
     rep.must("mode/nsec3", 10_000);
-    // adequacy clause (quick tier, seeds 1..5, sees >= 10x these numbers; wildcard-nodata is not
-    // listed: hickory answers it NXDOMAIN (C10-F1), so the clause never gets to judge one)
+    // adequacy clause (quick tier, seeds 1..5, sees >= 10x these numbers)
     rep.must("adequacy/evaluations", 100_000);
     rep.must("adequacy/roles_satisfied", 200_000);
     rep.must("adequacy/adequate", 100_000);
@@ -1240,6 +1263,8 @@ fn main() {
         rep.must(&format!("adequacy/kind/ent-nodata|{mode}"), 3_000);
         rep.must(&format!("adequacy/kind/wildcard-answer|{mode}"), 3_000);
         rep.must(&format!("adequacy/kind/wildcard-cname|{mode}"), 2_000);
+        rep.must(&format!("adequacy/kind/wildcard-nodata|{mode}"), 30_000);
+        rep.must(&format!("adequacy/role_ok/match-wc|{mode}"), 5_000);
         rep.must(&format!("adequacy/role_ok/cover-wc|{mode}"), 30_000);
         rep.must(&format!("adequacy/role_ok/match-qname|{mode}"), 3_000);
         // covers that only the ring-closing record can provide
@@ -1293,26 +1318,33 @@ fn main() {
                 }
             };
             let refp = adequacy::RefProofs::build(&z, &sign.ref_mode());
-            if sign != Sign::None {
-                // Oracle self-check, independent of hickory: whatever the adequacy clause may ask
-                // for must be deliverable by the reference chain of this zone – also for the kinds
-                // hickory currently answers differently (wildcard NODATA, C10-F1), where the
-                // clause never gets as far as judging a response.
-                for (_, _, e) in &exp {
-                    let Some(plan) = adequacy::plan(&z, e, sign.tag() == "nsec3", sign.opt_out(), &refp) else { continue };
-                    let v = adequacy::evaluate(&plan, &refp.recs, &z.apex, &refp.hc);
-                    r.rep.count("adequacy/selfcheck/plans");
-                    if v.ok {
-                        r.rep.count("adequacy/selfcheck/provable_on_reference_chain");
-                    } else if sign.opt_out() {
-                        r.rep.count("adequacy/selfcheck/not_provable_under_opt_out");
-                    } else {
-                        r.rep.count("adequacy/oracle_fault");
-                        r.rep.inconclusive(&format!("adequacy role table not satisfiable on the reference chain: {}|{} missing {:?} for {} {} in zone {}", plan.claim, sign.tag(), v.missing, refzone::show(&e.qname), refzone::type_name(e.qtype), z.to_text().replace('\n', "; ")));
-                    }
+            // Adequacy plans once per (zone, mode, query name, type), with the oracle's self-check,
+            // independent of hickory: whatever the clause may ask for must be deliverable by the
+            // reference chain of this zone – also where hickory answers with a different kind and
+            // the clause never gets to judge a response.
+            let mut pre: Vec<Option<(adequacy::Plan, bool)>> = Vec::with_capacity(exp.len());
+            for (_, _, e) in &exp {
+                if sign == Sign::None {
+                    pre.push(None);
+                    continue;
                 }
+                let Some(plan) = adequacy::plan(&z, e, sign.tag() == "nsec3", sign.opt_out(), &refp) else {
+                    pre.push(None);
+                    continue;
+                };
+                let v = adequacy::evaluate(&plan, &refp.recs, &z.apex, &refp.hc);
+                r.rep.count("adequacy/selfcheck/plans");
+                if v.ok {
+                    r.rep.count("adequacy/selfcheck/provable_on_reference_chain");
+                } else if sign.opt_out() {
+                    r.rep.count("adequacy/selfcheck/not_provable_under_opt_out");
+                } else {
+                    r.rep.count("adequacy/oracle_fault");
+                    r.rep.inconclusive(&format!("adequacy role table not satisfiable on the reference chain: {}|{} missing {:?} for {} {} in zone {}", plan.claim, sign.tag(), v.missing, refzone::show(&e.qname), refzone::type_name(e.qtype), z.to_text().replace('\n', "; ")));
+                }
+                pre.push(Some((plan, v.ok)));
             }
-            for (qi, t, e) in &exp {
+            for (ei, (qi, t, e)) in exp.iter().enumerate() {
                 // DO settings: unsigned: plain queries (1/8 also with DO=1, nothing extra to check);
                 // signed: DO=1 always, DO=0 for a quarter
                 let pick = rng.below(8);
@@ -1331,7 +1363,7 @@ fn main() {
                 for edns in variants {
                     let qname = if rng.chance(1, 8) { upper(&qnames[*qi]) } else { qnames[*qi].clone() };
                     let query = Query { qname, qtype: *t, edns };
-                    r.run_query(&cat, &Case { z: &z, zhash, sign: &sign, query: &query, refp: &refp }, e);
+                    r.run_query(&cat, &Case { z: &z, zhash, sign: &sign, query: &query, refp: &refp, pre: Some(&pre[ei]) }, e);
                 }
             }
         }
